@@ -65,3 +65,19 @@ package policer
 //@   property C26
 //@   callee (*policer.Policer).dropRedundantLocalObject
 //@   requires [part_confirmed_on_another_node] partHeaderReadFromOtherNode() || partReplicatedToOtherNode()
+
+// A local EC part is discarded as misplaced - without any confirmation from other nodes -
+// only when its indices really lie outside the container's rules: rule index >= number of
+// EC rules, or part index >= data+parity parts of its rule (the last valid index is
+// data+parity-1).
+//@ callrule misplaced_part_discarded_only_when_out_of_range in (*Policer).processECPart
+//@   property C26
+//@   callee (*policer.Policer).deleteLocalObject
+//@   requires [indices_outside_the_rules] pi.RuleIndex >= len(ecRules) || pi.Index >= int(rule.DataPartNum + rule.ParityPartNum)
+
+// A TOMBSTONE in a container with EC rules is kept on every node of every EC node list: the
+// pseudo replica rule added for the i-th EC list demands as many holders as THAT list has
+// nodes (the EC lists follow the REP lists in nn).
+//@ func (*Policer).processObject
+//@   property C26
+//@   loop 1 iteration [tombstone_wanted_on_every_node_of_its_own_ec_list] newRepRules[len(repRules) + rangeindex] == uint(len(nn[len(repRules) + rangeindex]))
